@@ -79,6 +79,23 @@ def install(it):
     def fresh_int(it, args, kw):
         return it.p.fresh_int(args[0] if args else 'k')
 
+    @reg('fresh_bool')
+    def fresh_bool(it, args, kw):
+        return it.p.fresh(args[0] if args else 'b', smt.Bool)
+
+    @reg('opaque_value')
+    def opaque_value(it, args, kw):
+        from .values import Opaque
+        it.p.counter += 1
+        return Opaque('%s!%d' % (args[0] if args else 'opaque', it.p.counter))
+
+    @reg('byte_at')
+    def byte_at(it, args, kw):
+        b, i = args
+        if isinstance(b, bytes):
+            return b[i]
+        return it.p.facts.byte_at(b, int_term(i))
+
     @reg('rem')
     def rem(it, args, kw):
         return args[0].rem
